@@ -87,7 +87,11 @@ def step(n, members, edges, op, pure=False, sched=None, jobs=None):
     msgs = []
     want_members, (mode, want) = ref_apply(members, edges, op)
     try:
-        real_apply(sched, jobs, op)
+        with seq.watchdog():
+            real_apply(sched, jobs, op)
+    except seq.Hang as exc:
+        return (["%s does not terminate (%s)" % (fmt(op), exc)], sched, jobs,
+                frozenset(members), frozenset(edges))
     except Exception as exc:
         return (["%s raises %r" % (fmt(op), exc)], sched, jobs,
                 frozenset(members), frozenset(edges))
@@ -147,6 +151,8 @@ def one_dag(n, edges, pure, res, between=True):
     members = [NAMES[i] for i in range(n)]
     named = {(NAMES[i], NAMES[j]) for i, j in edges}
     for op in all_ops(members, between):
+        if res.get('abort'):
+            break
         msgs, *_ = step(n, members, named, op, pure)
         res['trans'] += 1
         res['validated'] += 1
@@ -186,7 +192,7 @@ def seq_search(n, edges, depth, res):
         return msgs, members, ed
     seen = {(members0, edges0)}
     frontier = collections.deque([[]])
-    while frontier:
+    while frontier and not res.get('abort'):
         hist = frontier.popleft()
         _, members, ed = run(hist)
         if len(hist) >= depth:
